@@ -306,3 +306,108 @@ Proof.
     assert (C1 := count_negb (or3 obs bv cv)). rewrite or3_length in C1 by assumption.
     assert (C2 := count_negb bv). lia.
 Qed.
+
+(* ------------------------------------------------------------------ C13 at the wrappers: the guaranteed minimum survives
+   the data flow of filter_multimetric_points_sampled (GP) and filter_multimetric_points_sampled_spe (Parzen estimator) *)
+Lemma own_count_set_where : forall (lab : list bool) (x : Q) (l : list Q), length lab = length l ->
+  (count_true (map negb lab) <= own_count l (set_where lab x l))%nat.
+Proof.
+  unfold own_count, set_where.
+  induction lab as [|b lab IH]; intros x [|v l] H; simpl in *; try discriminate; [apply Nat.le_refl|].
+  rewrite !count_true_cons. specialize (IH x l ltac:(lia)).
+  destruct b; simpl.
+  - lia.
+  - assert (E : Qeq_bool v v = true) by (apply Qeq_bool_iff; reflexivity). rewrite E. lia.
+Qed.
+
+Lemma not_lie_count_set_where : forall (lab : list bool) (x : Q) (l : list Q), length lab = length l ->
+  (forall v, In v l -> ~ v == x) ->
+  not_lie_count x (set_where lab x l) = count_true (map negb lab).
+Proof.
+  unfold not_lie_count, set_where.
+  induction lab as [|b lab IH]; intros x [|v l] H Hd; simpl in *; try discriminate; [reflexivity|].
+  rewrite !count_true_cons. rewrite (IH x l) by (try lia; intros w Hw; apply Hd; right; exact Hw).
+  destruct b; simpl.
+  - assert (E : Qeq_bool x x = true) by (apply Qeq_bool_iff; reflexivity). rewrite E. reflexivity.
+  - destruct (Qeq_bool v x) eqn:E; [|reflexivity]. apply Qeq_bool_iff in E. exfalso. apply (Hd v); [left; reflexivity|exact E].
+Qed.
+
+Lemma has_success_true fails : has_success fails = true <-> exists j, (j < length fails)%nat /\ nth j fails false = false.
+Proof.
+  unfold has_success. rewrite existsb_exists. split.
+  - intros (b & Hin & Hb). destruct b; [discriminate|]. apply In_nth with (d := false) in Hin.
+    destruct Hin as (j & Hj & E). exists j. split; assumption.
+  - intros (j & Hj & E). exists false. split; [|reflexivity]. rewrite <- E. apply nth_In. exact Hj.
+Qed.
+
+(* the wrappers return data exactly when some observation is not a reported failure (epsilon-constraint method) *)
+Theorem wrapper_defined eps om cm pts vals vars fails lie :
+  (has_success fails = true ->
+     filter_gp_run (EpsC om cm eps) pts vals vars fails lie = Some (filter_gp (EpsC om cm eps) pts vals vars fails lie) /\
+     filter_spe_run (EpsC om cm eps) pts vals fails lie = Some (filter_spe (EpsC om cm eps) pts vals fails lie)) /\
+  (has_success fails = false ->
+     filter_gp_run (EpsC om cm eps) pts vals vars fails lie = None /\
+     filter_spe_run (EpsC om cm eps) pts vals fails lie = None).
+Proof. unfold filter_gp_run, filter_spe_run. cbn [reads_successes andb]. split; intros ->; split; reflexivity. Qed.
+
+(* GP path: at least min(5, n) rows are handed on; the three outputs are equally long and are the (point, optimising
+   value, optimising variance) triples of the rows kept, in order *)
+Theorem wrapper_gp_keeps_minimum eps om cm n pts vals vars fails lie o : aligned n pts vals vars fails ->
+  filter_gp_run (EpsC om cm eps) pts vals vars fails lie = Some o ->
+  (Nat.min 5 n <= length (o_pts o))%nat /\
+  length (o_pts o) = arr_len (o_vals o) /\ arr_len (o_vals o) = arr_len (o_vars o) /\
+  exists keepm, length keepm = n /\ count_true keepm = length (o_pts o) /\
+    o_pts o = select keepm pts /\ o_vals o = A1 (select keepm (col om vals)) /\ o_vars o = A1 (select keepm (col om vars)).
+Proof.
+  intros Hal Hrun. unfold filter_gp_run in Hrun. destruct (_ && _); [discriminate|].
+  assert (E : o = filter_gp (EpsC om cm eps) pts vals vars fails lie) by congruence. rewrite E. clear E Hrun o.
+  pose proof (filter_gp_lengths (EpsC om cm eps) n pts vals vars fails lie Hal) as HL. cbv zeta in HL.
+  destruct HL as (L1 & L2 & _).
+  pose proof (filter_gp_columns_eps eps om cm n pts vals vars fails lie Hal) as HC. cbv zeta in HC.
+  destruct HC as (Llab & _ & _ & _ & _ & Hmin & _).
+  destruct Hal as (Hp & Hv & Hs & Hf).
+  assert (Hlen : length (o_pts (filter_gp (EpsC om cm eps) pts vals vars fails lie)) =
+                 count_true (map negb (pf_labelling eps om cm vals fails))).
+  { cbn -[pf_labelling]. apply select_length_count. rewrite map_length. congruence. }
+  split; [rewrite Hlen; exact Hmin|]. split; [exact L1|]. split; [exact L2|].
+  exists (map negb (pf_labelling eps om cm vals fails)). rewrite map_length.
+  split; [exact Llab|]. split; [symmetry; exact Hlen|]. repeat split; reflexivity.
+Qed.
+
+(* Parzen-estimator path: points untouched; every row carries its own optimising value or the lie value; at least
+   min(5, n) rows carry their own value, and when the lie value differs from every observed value at least min(5, n)
+   rows are not the lie *)
+Theorem wrapper_spe_keeps_minimum eps om cm n pts vals fails lie o : aligned n pts vals vals fails ->
+  filter_spe_run (EpsC om cm eps) pts vals fails lie = Some o ->
+  fst o = pts /\ length (snd o) = n /\
+  (forall j, (j < n)%nat -> nth j (snd o) 0 = at_ vals j om \/ nth j (snd o) 0 = nth om lie 0) /\
+  (Nat.min 5 n <= own_count (col om vals) (snd o))%nat /\
+  ((forall j, (j < n)%nat -> ~ at_ vals j om == nth om lie 0) ->
+   (Nat.min 5 n <= not_lie_count (nth om lie 0%Q) (snd o))%nat).
+Proof.
+  intros Hal Hrun. unfold filter_spe_run in Hrun. destruct (_ && _); [discriminate|].
+  assert (E : o = filter_spe (EpsC om cm eps) pts vals fails lie) by congruence. rewrite E. clear E Hrun o.
+  pose proof (filter_spe_columns_eps eps om cm n pts vals fails lie Hal) as HC. cbv zeta in HC.
+  destruct HC as (Hpts & Llab & Hnth & _ & Hmin).
+  pose proof (filter_spe_lengths (EpsC om cm eps) n pts vals fails lie Hal) as HL. cbv zeta in HL. destruct HL as (_ & L2).
+  destruct Hal as (Hp & Hv & _ & Hf).
+  split; [exact Hpts|]. split; [exact L2|]. split; [|split].
+  - intros j Hj. rewrite Hnth by exact Hj. destruct (nth j _ false); [right|left]; reflexivity.
+  - cbn -[col eps_labelling own_count not_lie_count set_where]. eapply Nat.le_trans; [exact Hmin|].
+    apply own_count_set_where. rewrite col_length. congruence.
+  - intros Hd. cbn -[col eps_labelling own_count not_lie_count set_where]. rewrite not_lie_count_set_where; [exact Hmin|rewrite col_length; congruence|].
+    intros v Hin. apply In_nth with (d := 0) in Hin. destruct Hin as (j & Hj & <-). rewrite col_length in Hj.
+    rewrite col_nth by exact Hj. apply Hd. lia.
+Qed.
+
+(* the clause "for every failure mask" is false as it stands: when every observation is a reported failure the wrappers
+   hand on nothing at all (the running code raises ValueError from numpy.nanargmin of an empty array) *)
+Theorem wrapper_all_failed_refuted :
+  ~ (forall eps om cm pts vals vars fails lie, length pts = length vals -> length vars = length vals -> length fails = length vals ->
+       (exists o, filter_gp_run (EpsC om cm eps) pts vals vars fails lie = Some o) /\
+       (exists o, filter_spe_run (EpsC om cm eps) pts vals fails lie = Some o)).
+Proof.
+  intros H.
+  destruct (H (1#2) 0%nat 1%nat [[0]; [1]] [[1; 2]; [2; 1]] [[0; 0]; [0; 0]] [true; true] [9; 9] eq_refl eq_refl eq_refl) as ((o & Ho) & _).
+  vm_compute in Ho. discriminate.
+Qed.
